@@ -423,6 +423,19 @@ pub fn replay(case: &monlib::Value, rep: &mut Report) {
                 }
             }
         }
+        "c10-l2-bare" => {
+            let hist = strs(&case["moves"]);
+            let sm = case["searchmove"].as_str().unwrap_or("").to_string();
+            let go = GoSpec { depth: Some(1), searchmoves: vec![sm], ..Default::default() };
+            let _ = search(&mut sess, Some((&case["fen"].as_str().map(|s| s.to_string()), &hist)), &go);
+            let bare = case["bare_fen"].as_str().map(|s| s.to_string());
+            if let Ok(out) = search(&mut sess, Some((&bare, &[])), &go) {
+                if let Some(Reported::Cp(v)) = out.score_at_depth(1).and_then(reported) {
+                    println!("bare FEN after history: score cp {}", v);
+                    if v.abs() < 200 { rep.violation("earlier-position-command-counts-as-history", format!("cp {}", v), case.clone()); }
+                }
+            }
+        }
         "c10-l4" => {
             let p = Pos::from_fen(case["fen"].as_str().unwrap()).unwrap();
             let hist = strs(&case["moves"]);
